@@ -299,7 +299,7 @@ def _confirm(sets, band_edges, r2, pred, q, search):
         return hit
     # dense local search around the checker's witness (a wrong region may clear the band by a sliver)
     DENSE_BUDGET[0] -= 1
-    for step, half in ((F(1, 8), 24), (F(1, 32), 32)):
+    for step, half in ((F(1, 8), 24), (F(1, 32), 32), (F(1, 4), 44), (F(1, 16), 80)):
         hit = scan((q[0] + i * step + F(1, 1009), q[1] + j * step + F(1, 997))
                    for i in range(-half, half + 1) for j in range(-half, half + 1))
         if hit:
